@@ -106,7 +106,41 @@ LabelFails(ev) ==
          IF ~AllResolvable(A, ev.mono) THEN {"MACHINERY_generator_gave_unresolvable_annotation"}
          ELSE IF FWithin(got, want, BaseTol(ev.mono)) THEN {} ELSE {"label_shift_is_not_atoms_times_isotope_difference"}
 
+(* ---------------------------------------------------------------------------------------------------- *)
+(* C18: condensing every modification to a numeric mass shift preserves the peptide.                      *)
+(* ev.res = condense_to_mass_mods(text, include_plus, precision); ev.parsed = projection of parse(res);    *)
+(* ev.massIn / ev.massOut = real neutral mass (charge 0) of the input and of the result                     *)
+AllModsOf(X) == X.labile \o X.static \o X.isotope \o X.unknown \o X.nterm \o X.cterm
+                \o FoldLeft(LAMBDA acc, e : acc \o e.mods, <<>>, X.internal)
+                \o FoldLeft(LAMBDA acc, iv : acc \o iv.mods, <<>>, X.intervals)
+PrecUnit(prec) == IF prec >= 9 THEN Nano(1) ELSE <<0, Pow10(9 - prec)>>
+NonZeroSem(mods) == LET sm == SemSum(mods) IN sm.ok /\ ~FWithin(SemMass(sm, TRUE), FZero, Micro(10))
+CondenseFails(ev) ==
+    LET A == ev.A  n == NRes(A)  out == ev.parsed
+        X == CondenseStatic(A, StaticRules(A))
+        labs == Labels(A)
+        Labelled(p) == \E q \in 1..Len(labs) : Get(Residue(A.seq[p + 1]), LabelElement(labs[q])) > 0
+        localised == A.unknown = <<>> /\ A.intervals = <<>>
+        shifts == AllModsOf(out) IN
+    IF ev.text # Write(A, FALSE) THEN {"MACHINERY_text_not_spec_text"}
+    ELSE IF ev.out # "ret" THEN {"raised_" \o ev.out}
+    ELSE IF ~ev.parsedOk THEN {"result_does_not_parse"}
+    ELSE (IF out.seq # A.seq THEN {"residues_changed"} ELSE {})
+         \cup (IF \E q \in 1..Len(shifts) : Tag(shifts[q].v) \notin {"i", "f"} THEN {"non_numeric_modification_left"} ELSE {})
+         \cup (IF out.static # <<>> \/ out.isotope # <<>> THEN {"global_rule_left"} ELSE {})
+         \cup (IF ~FWithin(ev.massIn, ev.massOut, FAdd(Micro(2), FMulInt(PrecUnit(ev.prec), Len(shifts))))
+               THEN {"mass_not_preserved"} ELSE {})
+         \cup (IF A = EmptyAnn(A.seq) /\ ev.res # ev.text THEN {"unmodified_peptide_changed"} ELSE {})
+         (* shifts sit on the residues and termini that were modified *)
+         \cup (IF localised /\ \E p \in 0..(n - 1) : NonZeroSem(ModsAt(X, p)) /\ labs = <<>> /\ ModsAt(out, p) = <<>>
+               THEN {"modified_residue_has_no_shift"} ELSE {})
+         \cup (IF localised /\ \E p \in 1..(n - 2) : ModsAt(X, p) = <<>> /\ ~Labelled(p) /\ ModsAt(out, p) # <<>>
+               THEN {"shift_on_unmodified_residue"} ELSE {})
+         \cup (IF localised /\ labs = <<>> /\ X.nterm = <<>> /\ out.nterm # <<>> THEN {"shift_on_unmodified_nterm"} ELSE {})
+         \cup (IF localised /\ labs = <<>> /\ X.cterm = <<>> /\ out.cterm # <<>> THEN {"shift_on_unmodified_cterm"} ELSE {})
+
 Fails(ev) == CASE ev.k = "mass" -> MassFails(ev)
+               [] ev.k = "condense" -> CondenseFails(ev)
                [] ev.k = "static" -> StaticFails(ev)
                [] ev.k = "label" -> LabelFails(ev)
                [] ev.k = "agree" -> AgreeFails(ev)
@@ -154,7 +188,40 @@ Dev_C03_AdductElectronCount(ev) ==
            tol == IF mono THEN Micro(100) ELSE FAdd(Micro(1000), Ppm5(ev.modMass)) IN
        FWithin(FSub(ev.massRes, FMulInt(Electron, AdductsExcessElectrons(AgreeAdducts(ev)))), viaComp, tol)
 
-Dev(ev) == IF ev.k \in {"agree", "estimate"}
+(* C18_PerResidueExtras: condense_to_mass_mods measures each residue's shift on a one-residue copy of the peptide *)
+(* that still carries everything that is not a residue or explicit terminal modification: unknown-position and    *)
+(* interval modifications, static rules for N-Term / C-Term, the charge with its carriers, and (for labels on H   *)
+(* or O) the labelled atoms of the terminal water.  That extra E is therefore written onto EVERY residue.         *)
+(* Exactly: residues, numeric-only and the terminal / labile shifts are right; there is one number E such that    *)
+(* every residue's written shift is its own shift + E.                                                            *)
+ShiftAt(out, p) == FSum([ q \in 1..Len(ModsAt(out, p)) |-> FMulInt(DecimalFix(Body(ModsAt(out, p)[q].v)), ModsAt(out, p)[q].m) ])
+Dev_C18_PerResidueExtras(ev) ==
+    LET A == ev.A  n == NRes(A)  out == ev.parsed
+        rules == StaticRules(A)
+        resRules == [ q \in 1..Len(rules) |-> [ rules[q] EXCEPT !.targets = SelectSeq(@, LAMBDA t : t \notin {"N-Term", "C-Term"}) ] ]
+        X == CondenseStatic(A, resRules)
+        labs == Labels(A)
+        Own(p) == LET sm == SemSum(ModsAt(X, p))
+                      base == Residue(A.seq[p + 1]) IN
+                  FAdd(FAdd(SemMass(sm, TRUE), FSub(CompMass(ApplyLabels(base, labs), TRUE), CompMass(base, TRUE))),
+                       (* the modifications of every interval overlapping the residue ride along with its one-residue copy *)
+                       FoldLeft(LAMBDA acc, iv : IF iv.s <= p /\ p < iv.e THEN FAdd(acc, SemMass(SemSum(iv.mods), TRUE)) ELSE acc,
+                                FZero, A.intervals))
+        hasTermRule == \E q \in 1..Len(rules) : \E t \in SeqToSet(rules[q].targets) : t \in {"N-Term", "C-Term"}
+        waterLabel == \E q \in 1..Len(labs) : LabelElement(labs[q]) \in {"H", "O"}
+        E == FSub(ShiftAt(out, 0), Own(0))
+        slack == FAdd(Micro(3), FMulInt(PrecUnit(ev.prec), 2)) IN
+    /\ ev.k = "condense" /\ ev.out = "ret" /\ ev.parsedOk /\ n >= 1
+    /\ (A.unknown # <<>> \/ \E q \in 1..Len(A.intervals) : A.intervals[q].mods # <<>>) \/ hasTermRule
+         \/ A.charge # 0 \/ A.adducts # <<>> \/ waterLabel
+    /\ out.seq = A.seq
+    /\ \A q \in 1..Len(AllModsOf(out)) : Tag(AllModsOf(out)[q].v) \in {"i", "f"}
+    /\ AllResolvable(A, TRUE)
+    /\ \A p \in 0..(n - 1) : FWithin(ShiftAt(out, p), FAdd(Own(p), E), slack)
+
+Dev(ev) == IF ev.k = "condense"
+           THEN (IF "C18_PerResidueExtras" \in Devs /\ Dev_C18_PerResidueExtras(ev) THEN "C18_PerResidueExtras" ELSE "")
+           ELSE IF ev.k \in {"agree", "estimate"}
            THEN (IF "C03_AdductElectronCount" \in Devs /\ Dev_C03_AdductElectronCount(ev) THEN "C03_AdductElectronCount" ELSE "")
            ELSE IF ev.k # "mass" THEN ""
            ELSE IF "C02_AdductElectronCount" \in Devs /\ Dev_C02_AdductElectronCount(ev) THEN "C02_AdductElectronCount"
